@@ -260,6 +260,7 @@ type invocation struct {
 	Preload     func(ic *interop.Context) // push initial stack items
 	TimeShiftMs uint64                    // move the fake block's timestamp forward
 	GasLimit    int64
+	Trigger     trigger.Type // zero value: Application
 }
 
 func (v *env) run(inv *invocation) (*outcome, error) {
@@ -278,7 +279,11 @@ func (v *env) run(inv *invocation) (*outcome, error) {
 		}
 		blk = b
 	}
-	ic, err := v.bc.GetTestVM(trigger.Application, tx, blk)
+	trig := inv.Trigger
+	if trig == 0 {
+		trig = trigger.Application
+	}
+	ic, err := v.bc.GetTestVM(trig, tx, blk)
 	if err != nil {
 		return nil, err
 	}
